@@ -19,8 +19,8 @@ pub static DEF: CheckDef = CheckDef {
     id: "C04",
     variants: &["static-query-merge", "dynamic-query-merge", "static-mutation-serial", "dynamic-mutation-serial"],
     run,
-    quick_runs: 10_000,
-    thorough_runs: 400_000,
+    quick_runs: 200_000,
+    thorough_runs: 20_000_000,
     rule: "merge variants: generated query/mutation in which response keys are deliberately repeated (directly, by alias collision, through inline and named fragments), fault-free, under a drawn schedule; oracle over the resolver log: at most one resolver start per (parent instance, response key), and every object in the response has exactly the union of the keys selected for it. serial variants: generated mutation with 2-5 gated root fields with sub-selections; oracle: in response-key order, every resolver event below root field i precedes the first event of root field i+1. Non-trivial = a repeated key was resolved / at least two root fields had gated work; distinct = distinct event-order hashes.",
     real: &["async-graphql executor (static and dynamic): field collection, serial/parallel container resolution, value merging"],
     stub: &["async runtime (simulator)", "resolvers (harness, gated, logging start/finish)"],
